@@ -84,7 +84,8 @@ class C18(Prop):
         "dchoose_inverse_cdf", "markov0_frequencies_exact", "markov1_conditional_exact", "iid_never_fatal_any_number_type", "qrna_status",
         "ieee_carrier_lawful", "ieee_L5", "iid_support_ieee", "iid_support_ieee_negzero", "iid_never_fatal_ieee", "cMarkov0_einval_or_ok_ieee", "xMarkov0_einval_or_ok_ieee",
         "cMarkov1_einval_or_ok_ieee", "xMarkov1_einval_or_ok_ieee", "markov1_counts_exact_ieee",
-        "iid_complete_ieee", "cMarkov0_complete_ieee", "xMarkov0_complete_ieee", "cMarkov1_complete_ieee", "xMarkov1_complete_ieee")]
+        "iid_complete_ieee", "cMarkov0_complete_ieee", "xMarkov0_complete_ieee", "cMarkov1_complete_ieee", "xMarkov1_complete_ieee",
+        "dchoose_zero_roll_first_positive", "dchoose_zero_roll_first_positive_ieee")]
     claimed = True
     technique = ("Lean 4 proof (Fisher-Yates/swap-loop invariants, permutation and support theorems for every generator state; Markov/IID arithmetic over an IEEE-754 carrier with abstract monotone rounding) + "
                  "exact differential correspondence of the executable model (on the C09 generator model) with the ASan/UBSan-built C code + python property monitors on the C output")
